@@ -5,13 +5,24 @@ in seeded/<id>/meta.json."""
 import json, os, subprocess, sys, concurrent.futures as cf
 ROOT = os.path.dirname(os.path.abspath(__file__))
 allp = '--all' in sys.argv
+related = '--related' in sys.argv
+REL = {'reader.py': 'C01 C03 C04 C06 C07 C08 C10 C11 C12 C17', 'dom/reader.py': 'C05 C06 C08 C18', 'dom/writer.py': 'C04 C05 C06 C18', 'writer.py': 'C01 C02 C04 C05 C06 C09 C15 C20', 'utils/text.py': 'C01 C02 C03 C07 C13 C15 C16', 'unified_diffs.py': 'C13 C14', 'dom/objects.py': 'C05 C06 C13 C18 C19', 'dom/properties.py': 'C05 C18 C19', 'options.py': 'C09 C19 C03', 'sections.py': 'C09 C10', 'pygments_lexer.py': 'C20', 'errors.py': 'C08 C14'}
+
 only = [a for a in sys.argv[1:] if not a.startswith('--')]
 ids = sorted(d for d in os.listdir(os.path.join(ROOT, 'seeded')) if os.path.isdir(os.path.join(ROOT, 'seeded', d)))
 if only:
     ids = [i for i in ids if any(i.startswith(o) for o in only)]
 def run(sid):
     d = os.path.join(ROOT, 'seeded', sid)
-    cmd = ['python3', os.path.join(ROOT, 'tools_seeded.py'), d] + (['--all'] if allp else [])
+    extra = []
+    if related:
+        patch = open(os.path.join(d, 'patch.diff')).read()
+        props = set([sid.split('-')[0]])
+        for key, val in REL.items():
+            if ('pydiffx/' + key) in patch and (key != 'reader.py' or 'pydiffx/reader.py' in patch.replace('dom/reader.py', '')) and (key != 'writer.py' or 'pydiffx/writer.py' in patch.replace('dom/writer.py', '')):
+                props.update(val.split())
+        extra = sorted(props)
+    cmd = ['python3', os.path.join(ROOT, 'tools_seeded.py'), d] + extra + (['--all'] if allp else [])
     r = subprocess.run(cmd, stdout=subprocess.PIPE, stderr=subprocess.STDOUT, text=True)
     lines = r.stdout.strip().splitlines()
     caught = [l for l in lines if ' CAUGHT ' in l]
@@ -19,13 +30,13 @@ def run(sid):
     other = [l for l in lines if 'INCONCLUSIVE' in l]
     m = json.load(open(os.path.join(d, 'meta.json')))
     m.setdefault('checks', {})
-    key = 'all_quick' if allp else 'own_quick'
+    key = 'all_quick' if allp else ('related_quick' if related else 'own_quick')
     m['checks'][key] = {'caught_by': {l.split()[0]: l.split('CAUGHT', 1)[1].strip()[:200] for l in caught},
                         'missed_by': missed, 'inconclusive': other,
                         'command': ' '.join(cmd[1:]).replace(ROOT + '/', '')}
     json.dump(m, open(os.path.join(d, 'meta.json'), 'w'), indent=1)
     return sid, [l.split()[0] for l in caught], missed, other
-with cf.ThreadPoolExecutor(3 if allp else 5) as ex:
+with cf.ThreadPoolExecutor(2 if (allp or related) else 5) as ex:
     for sid, caught, missed, other in ex.map(run, ids):
         tag = sid.split('-')[0]
         print('%-8s %s caught_by=%s %s' % (sid, 'OK    ' if tag in caught else 'MISSED', ' '.join(caught) or '-', ('inconclusive:%s' % other) if other else ''))
